@@ -4,7 +4,7 @@
 HERE="$(cd "$(dirname "$0")/.." && pwd)"
 SEEDS=${1:-100}; TIER=${2:-quick}; SCALE=${3:-1}
 OUT=$(mktemp -d /dev/shm/hootsoak.XXXXXX)
-"$HERE/check" C18 quick > /dev/null 2>&1 || true   # make sure the binary is built against /repo
+VERIF_OUT="$OUT" "$HERE/check" C18 quick > /dev/null 2>&1 || true   # make sure the binary is built against /repo
 BIN="$HERE/sim/target/release/hootsim"
 export VERIF_DIR="$HERE" VERIF_OUT="$OUT" VERIF_SCALE="$SCALE"
 START=$(date +%s)
